@@ -184,7 +184,7 @@ def run_pi(item, res, I, vs, s):
     classes = list(TIT) + ["".join(a for a in AA if a not in TIT)]
     for k, letters in enumerate(classes):
         I.solver.add(count(in_set(v, letters) for v in vs) == counts[k])
-    rng = random.Random(str(counts))
+    rng = seeded_rng(str(counts))
 
     def cex(m):
         return dict(kind="pI", seq=seq_of_model(m, vs))
